@@ -1,23 +1,33 @@
 #!/bin/bash
-# tools/matrix.sh [ids...]: runs every claimed quick check against every seeded change (and every regression
-# revert) in a scratch worktree (never /repo), without touching /verif/evidence. Prints one line per change.
+# tools/matrix.sh [ids...]: runs every claimed quick check (one analyser process per change) against every seeded change
+# and every regression revert in scratch worktrees (never /repo's working tree), without touching /verif/evidence.
+# Prints one line per change: "<id> caught_by:[ C.. C.. ]". PROPS="C04 C05" restricts the properties; JOBS=n parallelism.
 . /verif/env.sh
-wt=/tmp/mx_$$
-git -C /repo worktree add -q --detach $wt HEAD || exit 2
-trap "git -C /repo worktree remove --force $wt" EXIT
-[ -n "${PROPS:-}" ] && props="$PROPS" || props=$(python3 -c "import json;print(' '.join(c['property_id'] for c in json.load(open('/verif/MANIFEST.json'))['checks']))")
 ids="$@"
-[ -z "$ids" ] && ids="$(ls /verif/seeded) $(ls /verif/regressions/*.revert.diff | xargs -n1 basename | sed 's/.revert.diff//')"
-for id in $ids; do
+[ -z "$ids" ] && ids="$(ls /verif/seeded | grep -v json) $(ls /verif/regressions/*.revert.diff | xargs -n1 basename | sed 's/.revert.diff//')"
+one() {
+  id=$1
+  wt=/tmp/mx_$$_$id
+  git -C /repo worktree add -q --detach $wt HEAD 2>/dev/null || { echo "$id: cannot create worktree"; return; }
   if [ -f /verif/seeded/$id/patch.diff ]; then patch=/verif/seeded/$id/patch.diff; else patch=/verif/regressions/$id.revert.diff; fi
-  git -C $wt apply $patch 2>/dev/null || { echo "$id: patch does not apply"; continue; }
-  caught=""
-  for p in $props; do
-    ARK_REPO=$wt /verif/bin/arkcheck -property $p -out /tmp/mxout_$$ >/tmp/mxout_$$.log 2>&1; rc=$?
-    [ $rc -eq 1 ] && caught="$caught $p"
-    [ $rc -ge 2 ] && caught="$caught $p(undecided)"
-  done
-  git -C $wt checkout -q -- .
-  echo "$id caught_by:[$caught ]"
+  if git -C $wt apply $patch 2>/dev/null; then
+    if [ -n "${PROPS:-}" ]; then
+      out=""; for p in $PROPS; do out="$out$(ARK_REPO=$wt /verif/bin/arkcheck -property $p -out /tmp/mxout_$$_$id 2>&1)"$'\n'; done
+    else
+      out=$(ARK_REPO=$wt /verif/bin/arkcheck -property all -out /tmp/mxout_$$_$id 2>&1)
+    fi
+    caught=$(echo "$out" | grep -o "^VIOLATION property=C[0-9]*" | sed 's/VIOLATION property=//' | sort -u | tr '\n' ' ')
+    und=$(echo "$out" | grep -o "^UNDECIDED property=C[0-9]*" | sed 's/UNDECIDED property=//' | sort -u | sed 's/$/(undecided)/' | tr '\n' ' ')
+    echo "$id caught_by:[ $caught$und]"
+  else
+    echo "$id: patch does not apply"
+  fi
+  git -C /repo worktree remove --force $wt
+  rm -rf /tmp/mxout_$$_$id
+}
+jobs=${JOBS:-4}
+for id in $ids; do
+  while [ $(jobs -r | wc -l) -ge $jobs ]; do sleep 0.3; done
+  one $id &
 done
-rm -rf /tmp/mxout_$$ /tmp/mxout_$$.log
+wait
